@@ -1024,6 +1024,58 @@ def oracle_worker(cases):
     return {"n": len(cases), "viol": sorted(viol, key=lambda v: len(json.dumps(v["case"])))[:5]}
 
 
+
+# ------------------------------------------------------------------ CLI sample (the command stops)
+
+
+def cli_worker(cases):
+    """run `python -m rpft.cli create -f csv` on CSV workbooks of the cases: statement-invalid
+    sheets must make the command fail (non-zero exit), valid ones must produce the output"""
+    import csv
+    import os
+    import shutil
+    import subprocess
+    import sys
+    import tempfile
+
+    res = {"n": 0, "viol": [], "strata": {}}
+    for c in cases:
+        d = tempfile.mkdtemp(prefix="c19cli_")
+        try:
+            os.mkdir(os.path.join(d, "in"))
+            for name, (headers, rows) in sheets_of_case(c).items():
+                with open(os.path.join(d, "in", name + ".csv"), "w", encoding="utf-8", newline="") as f:
+                    w = csv.writer(f)
+                    w.writerow(headers)
+                    w.writerows(rows)
+            p = subprocess.run([sys.executable, "-m", "rpft.cli", "create", "-f", "csv", "-o", "out.json", "in"],
+                               cwd=d, stdout=subprocess.PIPE, stderr=subprocess.PIPE, timeout=300)
+            res["n"] += 1
+            classes = []
+            for it in c["items"]:
+                if it["kind"] == "campaign":
+                    classes += [camp_row_class(r) for r in it["rows"]]
+                elif it["kind"] == "triggers":
+                    classes += [trig_row_class(r) for r in it["rows"]]
+            out_path = os.path.join(d, "out.json")
+            if "invalid" in classes:
+                res["strata"]["cli.invalid"] = res["strata"].get("cli.invalid", 0) + 1
+                if p.returncode == 0:
+                    res["viol"].append({"what": "CLI: a sheet with a row the statement calls invalid did not stop the command (exit 0)", "case": c})
+            elif "bad" not in classes:
+                res["strata"]["cli.valid"] = res["strata"].get("cli.valid", 0) + 1
+                if p.returncode != 0 or not os.path.exists(out_path):
+                    res["viol"].append({"what": "CLI: a valid index was rejected by the command", "case": c, "stderr": p.stderr.decode("utf-8", "replace")[-600:]})
+                else:
+                    out = json.load(open(out_path, encoding="utf-8"))
+                    for what, dd in oracle(c, {"out": out, "exc": None, "recs": []}):
+                        if not dd.get("finding"):
+                            res["viol"].append({"what": "CLI: " + what, "case": c, "detail": dd})
+        finally:
+            shutil.rmtree(d, ignore_errors=True)
+    return res
+
+
 # ------------------------------------------------------------------ direct function ties
 
 
@@ -1102,7 +1154,8 @@ REQUIRED_STRATA = (
     + ["unit.invalid", "start_mode.invalid", "event_type.invalid", "type.invalid", "match_type.invalid",
        "campaign.rows=0", "campaign.rows=8", "triggers.rows=0", "triggers.rows=8", "delivery_hour.blank", "delivery_hour.given",
        "label.spaces", "label.upper", "keywords.n=0", "keywords.n=2", "groups.some", "exclude_groups.some",
-       "outcome.accepted", "outcome.critical", "outcome.exception.validation", "outcome.exception.keyError"]
+       "outcome.accepted", "outcome.critical", "outcome.exception.validation", "outcome.exception.keyError",
+       "cli.invalid", "cli.valid"]
 )
 
 
@@ -1192,6 +1245,16 @@ def run(ck: core.Check):
         ck.evaluations += r["n"]
         for t in r["ties"]:
             ck.tie_break("int(): model and CPython differ", t)
+
+    # CLI sample: "rejected" in the CLI reading = the command exits non-zero
+    simple = [c for c in sweep if c["stream"] in ("sweep", "sweep-invalid")]
+    pick = simple[:: (3 if quick else 1)]
+    for r in par.pmap(cli_worker, core.shard(pick, par.NPROC)):
+        ck.evaluations += r["n"]
+        for k, n in r["strata"].items():
+            ck.count(k, n)
+        for v in r["viol"]:
+            ck.violation(v["what"], v)
 
     # generator self-check: every declared stratum was hit
     missing = [s for s in REQUIRED_STRATA if not ck.strata.get(s)]
